@@ -89,6 +89,20 @@ theorem C18_files0_unterminated (names : List Bytes) (last : Bytes)
   · simp only [List.any_eq_false]
     intro n hn; simp [hne n hn]
 
+/-- A list of NUL-terminated names is accepted exactly when every name is valid UTF-8 (starting
+    points are held as strings; the same word among the operands is refused by `main`): a name
+    that is not is never left out silently - the whole list is refused. -/
+theorem C18_files0_accepts_iff (names : List Bytes) (h : ∀ n ∈ names, ∀ b ∈ n, b ≠ 0) :
+    files0Ok (names.flatMap (· ++ [0])) = true ↔ ∀ n ∈ names, FuModel.Utf8.validUtf8 n = true := by
+  unfold files0Ok
+  rw [splitNul_names names h]
+  simp only [List.all_append, List.all_cons, List.all_nil, Bool.and_true, Bool.and_eq_true, List.all_eq_true]
+  constructor
+  · intro h1; exact h1.1
+  · intro h1; exact ⟨h1, by decide⟩
+
+example : files0Ok [99, 97, 102, 0xe9, 0, 100, 0] = false ∧ files0Ok [99, 97, 102, 0xc3, 0xa9, 0, 100, 0] = true := by decide
+
 /-! ### paths are spelled with the starting point as given -/
 
 theorem pushName_prefix (p : Bytes) (n : Name) : ∃ t, pushName p n = p ++ t := by
